@@ -721,10 +721,12 @@ fn run_stress(ctx: &mut Ctx) {
         let nlines = ref_lines(text).len() as u32;
         let view = Arc::new(SourceView::new(text.to_string().into()));
         let barrier = Arc::new(Barrier::new(nthreads));
+        let tids: Vec<Arc<std::sync::atomic::AtomicU64>> = (0..nthreads).map(|_| Arc::new(std::sync::atomic::AtomicU64::new(0))).collect();
         let handles: Vec<_> = (0..nthreads)
             .map(|t| {
                 let view = view.clone();
                 let barrier = barrier.clone();
+                let tid = tids[t].clone();
                 let calls: Vec<Call> = match (t as u64 + round) % 4 {
                     0 => vec![Call::GetLine(nlines - 1), Call::LineCount],
                     1 => vec![Call::LineCount, Call::GetLine(0)],
@@ -732,11 +734,61 @@ fn run_stress(ctx: &mut Ctx) {
                     _ => vec![Call::Lines],
                 };
                 std::thread::spawn(move || {
+                    if let Ok(l) = std::fs::read_link("/proc/thread-self") {
+                        if let Some(x) = l.file_name().and_then(|f| f.to_str()).and_then(|f| f.parse::<u64>().ok()) {
+                            tid.store(x, std::sync::atomic::Ordering::Release);
+                        }
+                    }
                     barrier.wait();
                     calls.into_iter().map(|c| (c, perform(&view, c))).collect::<Vec<_>>()
                 })
             })
             .collect();
+        // Wait for the round. Structural deadlock detection as for the scheduler subs: the view is
+        // private to this round, so only its own threads can make each other progress; if every
+        // unfinished one is asleep in the kernel (state S) without CPU time or context switches
+        // over 40 samples in 2 s, they wait for each other for good.
+        let started = std::time::Instant::now();
+        let mut polls = 0u32;
+        while handles.iter().any(|h| !h.is_finished()) {
+            polls += 1;
+            if polls < 2_000 {
+                std::thread::yield_now();
+            } else {
+                std::thread::sleep(std::time::Duration::from_micros(200));
+            }
+            if started.elapsed().as_millis() >= 1_500 {
+                let stuck: Vec<u64> = handles
+                    .iter()
+                    .zip(&tids)
+                    .filter(|(h, _)| !h.is_finished())
+                    .map(|(_, t)| t.load(std::sync::atomic::Ordering::Acquire))
+                    .collect();
+                let first: Vec<_> = stuck.iter().map(|t| thread_sample(*t)).collect();
+                let mut all_blocked = !stuck.is_empty() && first.iter().all(|s| matches!(s, Some(('S', _, _))));
+                for _ in 0..40 {
+                    if !all_blocked {
+                        break;
+                    }
+                    std::thread::sleep(std::time::Duration::from_millis(50));
+                    let now: Vec<_> = stuck.iter().map(|t| thread_sample(*t)).collect();
+                    all_blocked = now == first;
+                }
+                if all_blocked && handles.iter().zip(&tids).filter(|(h, _)| !h.is_finished()).count() == stuck.len() {
+                    let case = Case { scenario: Scenario { text: text.to_string(), threads: vec![vec![Call::GetLine(nlines - 1), Call::LineCount], vec![Call::LineCount, Call::GetLine(0)]] }, schedule: None };
+                    ctx.fail(
+                        "stress",
+                        &case,
+                        format!(
+                            "free-running stress round {round}: deadlock on {text:?} ({nthreads} threads): {} thread(s) are blocked inside their calls (kernel state S, no CPU time and no context switch over 2 s) and no other thread has access to the view",
+                            stuck.len()
+                        ),
+                    );
+                    return;
+                }
+                crate::engine::heartbeat();
+            }
+        }
         for h in handles {
             for (call, got) in h.join().unwrap_or_default() {
                 let want = expected(text, call);
